@@ -9,7 +9,19 @@ use std::str::FromStr;
 
 const I_POOL: &[char] = &['a', 'Z', '0', '.', '+', '~', '-', 'q', '9'];
 const W_POOL: &[char] = &[' ', '\t', '\r'];
-const X_POOL: &[char] = &['@', '_', '/', '"', 'é', '日', '\u{1}', '*', '#', ';', '\u{a0}'];
+const X_POOL: &[char] = &['@', '_', '/', '"', 'é', '日', '\u{1}', '*', '#', ';', '\u{a0}', '\u{2003}', '\u{3000}', '\u{85}', '\u{b}', '\u{c}', '\u{feff}', '\u{200b}', '\u{0}'];
+/// pool of a class with several members (None: the class is one character)
+pub fn class_pool(c: &str) -> Option<&'static [char]> { match c { "I" => Some(I_POOL), "W" => Some(W_POOL), "X" => Some(X_POOL), _ => None } }
+/// Systematic sweep for short class strings: position by position, every member of that position's class
+/// (the other positions keep their plain representative) - no pool member is left to chance.
+pub fn sweep_texts(classes: &[String]) -> Vec<String> {
+    let base: Vec<char> = { let mut rng = StdRng::seed_from_u64(0); classes.iter().map(|c| class_char(c, 0, &mut rng)).collect() };
+    let mut out = vec![];
+    for (i, c) in classes.iter().enumerate() {
+        if let Some(pool) = class_pool(c) { for ch in pool { let mut t = base.clone(); t[i] = *ch; out.push(t.into_iter().collect()); } }
+    }
+    out
+}
 
 pub fn class_char(c: &str, map: usize, rng: &mut StdRng) -> char {
     match (c, map) {
@@ -129,6 +141,7 @@ pub fn run_strings(case: &Value, seed: u64) -> Outcome {
         let text = rel_text(&cls, m, seed, crate::conc::hash64(&o.key));
         if !seen.insert(text.clone()) { continue; }
         observe_rel(&mut o, case, &text, allow, &feats, true);
+        if m == 0 && cls.len() <= 3 { for t in sweep_texts(&cls) { if seen.insert(t.clone()) { observe_rel(&mut o, case, &t, allow, &feats, true); } } }
         if o.sample.is_null() && cls.len() >= 3 {
             o.sample = json!({"classes": cls.join(""), "allow_substvar": allow, "text": text, "model_tokens": case["t"], "model_errors": case["e"]});
         }
@@ -149,7 +162,8 @@ pub struct RelExp {
 #[derive(Debug, Clone, PartialEq)]
 pub enum ItemExp { Entry(Vec<RelExp>), Substvar(String) }
 
-const NAMES: &[&str] = &["libfoo2.0-dev", "a", "g++", "x~y", "python3-dulwich", "zlib1g"];
+// (two names that differ where '+' and '-' sort differently under byte order and under "split at dashes" orders)
+const NAMES: &[&str] = &["libfoo2.0-dev", "a", "g++", "x~y", "python3-dulwich", "c-ares", "zlib1g", "c+tools"];
 const AQS: &[&str] = &["any", "native", "amd64"];
 /// two version chains in increasing Debian order (Policy 5.6.12)
 pub const VERS: [&[&str]; 2] = [&["1.0~rc1", "1.0", "1.0-1", "1.0-1+b1", "1.1", "2"], &["0.9~~", "0.9~", "0.9", "0.9+dfsg-1", "0.10", "1"]];
@@ -180,7 +194,7 @@ pub fn concretise_field(case: &Value, map: usize) -> (String, Vec<String>) {
                     *n += 1;
                     // epoch form: IDENT(epoch) COLON IDENT(version): look ahead to see whether a COLON with role ver follows
                     let is_epoch_part = *n == 1 && kinds.get(i + 1) == Some(&"COLON") && roles[i + 1][0] == "ver";
-                    if is_epoch_part { "1".to_string() } else { VERS[map % 2][(e as usize + r as usize) % VERS[map % 2].len()].to_string() }
+                    if is_epoch_part { ["1", "10", "2"][map % 3].to_string() } else { VERS[map % 2][(e as usize + r as usize) % VERS[map % 2].len()].to_string() }
                 }
                 "arch" => { arch_n += 1; ARCHS[(arch_n + map) % ARCHS.len()].to_string() }
                 "prof" => { prof_n += 1; PROFS[(prof_n + map) % PROFS.len()].to_string() }
@@ -396,7 +410,8 @@ pub fn run_wrap(case: &Value, _seed: u64) -> Outcome {
         }
         // 3. sorted: alternatives by name inside each entry, entries by their alternatives' names
         let names: Vec<Vec<&str>> = ws.iter().map(|e| e.iter().map(|r| r.name.as_str()).collect()).collect();
-        if names.iter().any(|e| e.windows(2).any(|p| p[0] > p[1])) || names.windows(2).any(|p| p[0] > p[1]) {
+        // (the order among entries whose first alternative has the same name is not pinned by the property)
+        if names.iter().any(|e| e.windows(2).any(|p| p[0] > p[1])) || names.windows(2).any(|p| !p[0].is_empty() && !p[1].is_empty() && p[0][0] > p[1][0]) {
             o.v("C13", "sorted", "Relations::wrap_and_sort", "mismatch", &feats, &text, format!("output {:?} is not sorted by name", w));
         }
         // the returned object's accessors show the same components as its text re-read
